@@ -31,7 +31,7 @@ type Resolved struct {
 	MergeCycle bool
 	// Stats for non-triviality rules.
 	Merges, MergeSources, Aliases, OverlapHidden, NestedMerges int
-	Nodes                                                     int // expanded node count
+	Nodes                                                      int // expanded node count
 }
 
 type resolver struct {
